@@ -310,6 +310,193 @@ func C02(r *explore.Run) {
 			c.Nontrivial(explore.Hash(text))
 		}
 	})
+	// accepted inputs outside G: token strings and corpus files against the generic token-preservation oracle
+	kept := func(c *explore.Ctx, e *Entry, s string) {
+		res := e.Call(s)
+		if res.Err != nil || res.Panic != nil {
+			return
+		}
+		c.Count("accepted_inputs", 1)
+		for sig, d := range checkTokensKept(e, s, res) {
+			c.Violation(sig, e.Name+": "+s, d)
+		}
+		c.OutcomeStr(e.Name + s)
+		c.Nontrivial(explore.Hash(s))
+	}
+	tokenSpaces(r, explore.Options{}, false, kept)
+	corpusSpace(r, kept)
+	// near-valid inputs: every keyword of every sentence replaced by each keyword that stands in an alternative
+	// somewhere in the grammar (a parser that accepts such a mixture must still print what was written)
+	kk := 2
+	if r.Tier == "thorough" {
+		kk = 3
+	}
+	r.Explore(explore.Options{Space: "S5k/keyword-replacements", MaxDev: kk, SplitLen: 3,
+		Bound: fmt.Sprintf("every sentence of G with <=%d deviations x every keyword position x each of %d sibling keywords", kk, len(siblingKeywords))},
+		func(c *explore.Ctx) {
+			root := grammar.Roots[c.ChooseFree(len(grammar.Roots))]
+			sent := grammar.Derive(c, root)
+			en := specificEntry(sent.Kind)
+			if en == "" {
+				en = "ParseStatement"
+			}
+			e := EntryByName(en)
+			c.Input(sent.Text())
+			parts := make([]string, len(sent.Src))
+			for i, t := range sent.Src {
+				parts[i] = t.Text
+			}
+			text := func() string {
+				var b strings.Builder
+				for i, t := range sent.Src {
+					b.WriteString(parts[i])
+					if i+1 < len(sent.Src) && !t.NoGap {
+						b.WriteByte(' ')
+					}
+				}
+				return b.String()
+			}
+			for i, t := range sent.Src {
+				if t.Class != grammar.KW && t.Class != grammar.PKW {
+					continue
+				}
+				for _, w := range siblingKeywords {
+					if w == t.Text {
+						continue
+					}
+					parts[i] = w
+					x := text()
+					c.Count("edited_inputs", 1)
+					res := e.Call(x)
+					if res.Err == nil && res.Panic == nil {
+						c.Count("accepted_inputs", 1)
+						for sig, d := range checkTokensKept(e, x, res) {
+							c.Violation(sig, e.Name+": "+x, d)
+						}
+						c.Nontrivial(explore.Hash(x))
+					}
+				}
+				parts[i] = t.Text
+			}
+			c.OutcomeStr(sent.Text())
+		})
+}
+
+// siblingKeywords are keywords that occur as alternatives of one another in the grammar.
+var siblingKeywords = strings.Fields("ALL DISTINCT UNION INTERSECT EXCEPT ASC DESC FIRST LAST LEFT RIGHT FULL CROSS HASH LOOKUP NOT NULL IF EXISTS OR AND REPLACE IGNORE UPDATE " +
+	"TRUE FALSE IN IS LIKE ROWS PERCENT BERNOULLI RESERVOIR STRUCT VALUE OFFSET ORDINAL SAFE_OFFSET STORED HIDDEN ASSERT_ROWS_MODIFIED CASCADE RESTRICT " +
+	"INVOKER DEFINER ADD DROP SET ALTER CREATE TABLE INDEX NEW_VALUES OLD_AND_NEW_VALUES UNIQUE NULL_FILTERED")
+
+// checkTokensKept is C02's oracle for an arbitrary accepted input (no grammar sentence at hand): the
+// significant tokens of SQL() must be those of the input, in the same order, after removing on both
+// sides exactly the tokens the property lets the unparser drop or add: ',' and ';', the noise words
+// INNER/OUTER/INTO, DELETE's FROM, ARE before ALL; '<>' may come back as '!='; an identifier may come
+// back in upper case (pseudo keywords); the elements of a CREATE TABLE may be regrouped (compared as a multiset).
+func checkTokensKept(e *Entry, s string, res ParseResult) map[string]string {
+	viol := map[string]string{}
+	if res.Err != nil || res.Panic != nil || len(res.Roots) == 0 {
+		return viol
+	}
+	var sqls []string
+	for _, r := range res.Roots {
+		q, ok := safeSQL(r)
+		if !ok {
+			return viol // C04
+		}
+		sqls = append(sqls, q)
+	}
+	in, err1 := oracle.ImplLex(s)
+	out, err2 := oracle.ImplLex(strings.Join(sqls, " ; "))
+	if err1 != nil {
+		return viol
+	}
+	if err2 != nil {
+		viol["C02/sql-does-not-lex"] = fmt.Sprintf("%s(%q).SQL() = %q does not lex: %v", e.Name, s, strings.Join(sqls, " ; "), err2)
+		return viol
+	}
+	type kt struct{ kind, val string }
+	isWord := func(t oracle.ImplTok, w string) bool {
+		return string(t.Kind) == w || t.Kind == "<ident>" && strings.EqualFold(t.AsString, w)
+	}
+	reduce := func(toks []oracle.ImplTok) []kt {
+		var o []kt
+		for i, t := range toks {
+			k := string(t.Kind)
+			switch {
+			case k == "," || k == ";" || k == "<eof>" || k == "INNER" || k == "OUTER" || k == "INTO":
+				continue
+			case k == "FROM" && i > 0 && isWord(toks[i-1], "DELETE"):
+				continue
+			case isWord(t, "ARE") && i+1 < len(toks) && toks[i+1].Kind == "ALL":
+				continue
+			case k == "<ident>" || k == "<string>" || k == "<bytes>" || k == "<param>":
+				o = append(o, kt{k, t.AsString})
+			case k == "<int>" || k == "<float>":
+				o = append(o, kt{k, t.Raw})
+			case k == ">>":
+				o = append(o, kt{">", ""}, kt{">", ""})
+			case k == "<>" || k == "!=":
+				o = append(o, kt{"<", ""}, kt{">", ""})
+			default:
+				o = append(o, kt{k, ""})
+			}
+		}
+		return o
+	}
+	same := func(a, b kt) bool {
+		if a == b {
+			return true
+		}
+		return a.kind == "<ident>" && b.kind == "<ident>" && strings.EqualFold(a.val, b.val) && b.val == strings.ToUpper(b.val)
+	}
+	a, b := reduce(in), reduce(out)
+	sql := strings.Join(sqls, " ; ")
+	name := func(x kt) string {
+		if x.kind == "<ident>" {
+			return strings.ToUpper(x.val) // pseudo keywords are identifiers to the lexer
+		}
+		return x.kind
+	}
+	for _, v := range allNodes(res.Roots) {
+		if _, ok := v.Node.(*ast.CreateTable); ok {
+			// elements may be regrouped: compare as multisets
+			used := make([]bool, len(b))
+			for _, x := range a {
+				found := false
+				for j, y := range b {
+					if !used[j] && same(x, y) {
+						used[j], found = true, true
+						break
+					}
+				}
+				if !found {
+					viol["C02/tokens/dropped/"+name(x)] = fmt.Sprintf("%s(%q).SQL() = %q: the token (%s %q) of the input has no counterpart in the output", e.Name, s, sql, x.kind, x.val)
+					return viol
+				}
+			}
+			for j, y := range b {
+				if !used[j] {
+					viol["C02/tokens/added/"+name(y)] = fmt.Sprintf("%s(%q).SQL() = %q: the token (%s %q) of the output has no counterpart in the input", e.Name, s, sql, y.kind, y.val)
+					return viol
+				}
+			}
+			return viol
+		}
+	}
+	for i := 0; i < len(a) || i < len(b); i++ {
+		switch {
+		case i < len(a) && i < len(b) && same(a[i], b[i]):
+			continue
+		case i >= len(b) || i+1 < len(a) && same(a[i+1], b[i]):
+			viol["C02/tokens/dropped/"+name(a[i])] = fmt.Sprintf("%s(%q).SQL() = %q: significant token #%d of the input (%s %q) is missing in the output", e.Name, s, sql, i, a[i].kind, a[i].val)
+		case i >= len(a) || i+1 < len(b) && same(a[i], b[i+1]):
+			viol["C02/tokens/added/"+name(b[i])] = fmt.Sprintf("%s(%q).SQL() = %q: the output has an extra significant token #%d (%s %q)", e.Name, s, sql, i, b[i].kind, b[i].val)
+		default:
+			viol["C02/tokens/changed/"+name(a[i])+"->"+name(b[i])] = fmt.Sprintf("%s(%q).SQL() = %q: significant token #%d is (%s %q) in the input but (%s %q) in the output", e.Name, s, sql, i, a[i].kind, a[i].val, b[i].kind, b[i].val)
+		}
+		break
+	}
+	return viol
 }
 
 func init() {
